@@ -383,6 +383,42 @@ def deleteReqG (c : DelConfirm) (s : FS) (aid : List Nat) : FS × Out :=
 
 def deleteReq (s : FS) (aid : List Nat) : FS × Out := deleteReqG delConfirm s aid
 
+/-! ### cmbbs: the accessors of the fixed-size .PASSWDS records (substitute-at-index for the user file)
+
+PasswdUpdate / PasswdUpdatePasswd / PasswdUpdateEmail write a whole record or one field of the record of
+user `uid` (1-based) in place; PasswdQuery / PasswdQueryPasswd / PasswdQueryUserLevel read them.  Each
+starts with `if !uid.IsValid()` (regenerated: the guard and the bounds of `UID.IsValid`); the file is opened
+without O_CREATE and its length is NOT checked, so the uid guard is all that keeps a write inside the file. -/
+
+def pwSz : Nat := Gen.RecFile.USEREC_RAW_SZ
+def maxUsers : Nat := Gen.RecFile.MAX_USERS
+
+/-- `uid.IsValid()`: `u >= uidLo && u <= uidHi`. -/
+def uidValid (uid : Int) : Bool := decide ((Gen.RecFile.uidLo : Int) ≤ uid ∧ uid ≤ (Gen.RecFile.uidHi : Int))
+
+/-- the writers, with the acceptance test as a parameter: `bs` goes to `USEREC_RAW_SZ*(uid-1) + off`. -/
+def passwdUpdateG (accept : Int → Bool) (s : FS) (uid : Int) (off : Nat) (bs : List Nat) : FS × Out :=
+  if !accept uid then (s, .unit .invalidIdx)             -- cache.ErrInvalidUID
+  else if !s.present then (s, .unit .err)                 -- OpenFile(O_WRONLY): no such file
+  else
+    let o : Int := (pwSz : Int) * (uid - 1) + (off : Int)
+    if o < 0 then (s, .unit .err)                         -- Seek
+    else (⟨true, writeAt s.bytes o.toNat bs⟩, .unit .ok)
+
+def passwdUpdate (s : FS) (uid : Int) (off : Nat) (bs : List Nat) : FS × Out :=
+  passwdUpdateG uidValid s uid off bs
+
+/-- the readers: `len` bytes at the same offset; a short read is an error. -/
+def passwdQuery (s : FS) (uid : Int) (off len : Nat) : Out :=
+  if !uidValid uid then .recs .invalidIdx []              -- ptttype.ErrInvalidUserID
+  else if !s.present then .recs .err []
+  else
+    let o : Int := (pwSz : Int) * (uid - 1) + (off : Int)
+    if o < 0 then .recs .err []
+    else
+      let r := (s.bytes.drop o.toNat).take len
+      if r.length < len then .recs .err [] else .recs .ok [(uid.toNat, r)]
+
 /-! ### operations and histories -/
 
 inductive Op where
